@@ -299,6 +299,7 @@ struct Item {
   bool expectAnswer = false;
   int answerReaction[2] = {0, 0};  // reaction of the foreign master to the host's response: 0 ACK 1 NAK 2 other 3 silence
   std::vector<uint8_t> repeatBytes; // master part sent again (once) when the host answers with NAK
+  bool waitHostSyn = false;        // BYTES/TELEGRAM: starts right after the next SYN the host itself generates (host is the SYN generator)
 };
 
 class Bus {
@@ -404,12 +405,16 @@ class Bus {
       trackBus(echo, 'H');
       return;
     }
+    size_t rx0 = g.rx.size();
     emit(t, echo, 'H', false, b);
     if (b == 0xAA && echo == 0xAA) {
       // a SYN generated by the host ends whatever was going on, like the SYN of any other generator
       hostOwnsBus = false;
       tr = Track();
       if (enhanced && enhArbAddr != 0xAA) enhArbPending = true;
+      // its echo may be handed over together with the first symbol of a telegram that starts right after it (one symbol only:
+      // the echo has to be back within the host's send timeout)
+      else if (gluePct > 0 && rng && (int)rng->below(100) < gluePct) glueFollowing(rx0, INT64_MAX, 1);
     }
   }
 
@@ -459,6 +464,16 @@ class Bus {
           || (it.kind != Item::SYN && itemPos < it.gaps.size() && it.gaps[itemPos] > 0) || (it.kind == Item::SYN && it.gap > 10 * MS))) break;
       if (it.kind == Item::GAP) { taken++; scriptNotBefore = std::max(lastByteTime, g.now) + it.gap; script.pop_front(); pendingGap = true; continue; }
       if (it.kind != Item::SYN && it.bytes.empty()) { script.pop_front(); itemPos = 0; continue; }
+      if (it.waitHostSyn && itemPos == 0) {
+        // nothing is put on the wire until the host has generated a SYN (bounded: a host that never does is not waited for forever)
+        bool afterHostSyn = !log.empty() && log.back().b == 0xAA && log.back().origin == 'H';
+        if (!afterHostSyn) {
+          if (waitHostSynSince == 0) waitHostSynSince = g.now;
+          if (g.now - waitHostSynSince < 3000 * MS) break;
+        }
+        waitHostSynSince = 0;
+        it.waitHostSyn = false;
+      }
       // when is the next scripted byte due? fixed when it is first considered; nothing is put on the wire before its time has
       // come within the host's current wait (the host may act on a timeout first, e.g. generate a SYN)
       if (itemDue == 0) {
@@ -498,6 +513,7 @@ class Bus {
   }
 
   bool pendingGap = false;
+  int64_t waitHostSynSince = 0;
   size_t itemPos = 0;
   int64_t itemDue = 0;          // due time of the next scripted byte (0: not determined yet)
   int64_t scriptNotBefore = 0;  // end of a scripted silent gap
@@ -521,14 +537,16 @@ class Bus {
                                 // another master starts right after it (serial/USB/network latency: the host cannot arbitrate; on the
                                 // enhanced device only while the adapter has no arbitration request of the host)
   long glued = 0;
-  void glueFollowing(size_t rx0, int64_t horizon) {
+  void glueFollowing(size_t rx0, int64_t horizon, size_t maxK = 3) {
     if (itemPos != 0 || pendingGap || hostArbPending) return;
     // a scripted SYN that was due anyway is the one just seen
     if (script.size() >= 2 && script[0].kind == Item::SYN && script[0].gap < 45 * MS && script[1].kind != Item::SYN && script[1].kind != Item::GAP) script.pop_front();
     if (script.empty()) return;
     Item& it = script.front();
     if ((it.kind != Item::TELEGRAM && it.kind != Item::BYTES) || it.gap != 0 || it.bytes.size() < 2) return;
-    size_t k = 1 + rng->below(3);
+    if (it.waitHostSyn && !(log.back().origin == 'H')) return;
+    it.waitHostSyn = false; waitHostSynSince = 0;
+    size_t k = 1 + rng->below((uint32_t)maxK);
     if (k > it.bytes.size() - 1) k = it.bytes.size() - 1;
     for (size_t j = 0; j < k && j < it.gaps.size(); j++) if (it.gaps[j] > 0) return;
     if (lastByteTime + (int64_t)k * SYM > horizon) return;
